@@ -96,6 +96,7 @@ class Evaluator:
         self.steps = 0
         self.max_steps = max_steps
         self.calls = 0
+        self._const_stack = set()
 
     # -- entry points -----------------------------------------------------------------------
     def call(self, spec, args, self_obj=None, kwargs=None):
@@ -376,7 +377,16 @@ class Evaluator:
                 if r[1] in m2.constants:
                     v = Folder(self.repo, m2.name).fold(m2.constants[r[1]])
                     if v is Unknown:
-                        raise Undecided("constant %s not foldable" % e.id)
+                        # not a literal (a table of classes / functions, a comprehension over repository functions): evaluate its
+                        # defining expression in the scope of its module
+                        key = (m2.name, r[1])
+                        if key in self._const_stack:
+                            raise Undecided("constant %s defined through itself" % e.id)
+                        self._const_stack.add(key)
+                        try:
+                            v = self._expr(m2.constants[r[1]], {}, m2, None)
+                        finally:
+                            self._const_stack.discard(key)
                     return v
                 if r[1] in m2.functions:
                     return ("func", m2.name, r[1])
@@ -534,6 +544,33 @@ class Evaluator:
                     else:
                         out += str(x)
             return out
+        if isinstance(e, (ast.ListComp, ast.SetComp, ast.GeneratorExp, ast.DictComp)):
+            out = []
+
+            def rec(gens, env2):
+                if not gens:
+                    if isinstance(e, ast.DictComp):
+                        out.append((self._expr(e.key, env2, mod, cls), self._expr(e.value, env2, mod, cls)))
+                    else:
+                        out.append(self._expr(e.elt, env2, mod, cls))
+                    return
+                g = gens[0]
+                it = self._expr(g.iter, env2, mod, cls)
+                if not isinstance(it, (list, tuple, range, bytes, str, dict, set)):
+                    raise Undecided("comprehension over %s" % type(it).__name__)
+                for x in list(it):
+                    env3 = dict(env2)
+                    self._store(g.target, x, env3, mod, cls)
+                    if all(self._truth(self._expr(c, env3, mod, cls)) for c in g.ifs):
+                        rec(gens[1:], env3)
+            rec(list(e.generators), dict(env))
+            if isinstance(e, ast.DictComp):
+                return dict(out)
+            if isinstance(e, ast.SetComp):
+                return set(out)
+            return out
+        if isinstance(e, ast.Lambda):
+            raise Undecided("lambda")
         raise Undecided("expression %s" % type(e).__name__)
 
     def _call(self, e, env, mod, cls):
@@ -564,6 +601,26 @@ class Evaluator:
                     else:
                         raise Undecided("isinstance against %r" % (t,))
                 return False
+            if nm in ("getattr", "hasattr") and len(e.args) in (2, 3):
+                o = self._expr(e.args[0], env, mod, cls)
+                an = self._expr(e.args[1], env, mod, cls)
+                if not isinstance(an, str):
+                    raise Undecided("getattr with a non-string name")
+                probe = ast.copy_location(ast.Attribute(value=ast.Constant(value=None), attr=an, ctx=ast.Load()), e)
+                env2 = dict(env)
+                env2["__recv__"] = o
+                probe.value = ast.Name(id="__recv__", ctx=ast.Load())
+                try:
+                    v = self._expr(probe, env2, mod, cls)
+                except Raised as x:
+                    if x.name != "AttributeError":
+                        raise
+                    if nm == "hasattr":
+                        return False
+                    if len(e.args) == 3:
+                        return self._expr(e.args[2], env, mod, cls)
+                    raise
+                return True if nm == "hasattr" else v
             if nm in ("len", "int", "bytes", "str", "bool", "list", "tuple", "sorted", "min", "max", "sum", "abs", "range", "reversed", "any", "all",
                       "enumerate", "zip", "hex", "ord", "chr", "divmod", "set", "bytearray", "dict", "pow", "bin", "oct", "round", "repr"):
                 args = [self._expr(a, env, mod, cls) for a in e.args]
